@@ -17,6 +17,10 @@ void verif_throw_event(void);
 void verif_end(void);               // must be the last statement of every entry (reachability witness)
 uint32_t verif_param(void);         // per-query constant (case splits), fixed by the driver
 }
+// Point a std::vector (libstdc++ layout) at caller-provided storage: n elements, capacity cap.
+template <class V, class T> static inline void pointVec(V& v, T* p, int n, int cap) {
+    v._M_impl._M_start = p; v._M_impl._M_finish = p + n; v._M_impl._M_end_of_storage = p + cap;
+}
 #define ASSUME(c) __CPROVER_assume(c)
 #define CHECK(c, label) verif_assert((c), label)
 #define END() verif_end()
